@@ -33,7 +33,10 @@ def header_only_def():
 
 def mk(rng, apid, flag, count, dlen=None):
     dlen = dlen or rng.choice([1, 2, 3, 5, 8])
-    bits = f"{0:03b}{0:01b}{1:01b}{apid:011b}{FLAGS[flag]:02b}{count % 16384:014b}{dlen - 1:016b}"
+    # groups are per APID: the other bits of the identification field (version, type, secondary-header flag) vary from
+    # packet to packet and play no part
+    v, ty, sh = (rng.randrange(8), rng.randrange(2), rng.randrange(2)) if rng.random() < 0.3 else (0, 0, 1)
+    bits = f"{v:03b}{ty:01b}{sh:01b}{apid:011b}{FLAGS[flag]:02b}{count % 16384:014b}{dlen - 1:016b}"
     return int(bits, 2).to_bytes(6, "big") + rng.randbytes(dlen)
 
 
